@@ -315,7 +315,7 @@ func (p *packer) packInt() bool {
 	default:
 		// n < 8 so truncate
 		max := int64(1) << (n<<3 - 1)
-		if !p.checkBounds(-max, max-1) {
+		if !p.checkBounds(-max, max-1) || !p.consumeBudget(uint64(n)) {
 			return false
 		}
 		var ww bytes.Buffer
@@ -359,7 +359,7 @@ func (p *packer) packUint() bool {
 	default:
 		// n < 8 so truncate
 		max := int64(1) << (n << 3)
-		if !p.checkBounds(0, max-1) {
+		if !p.checkBounds(0, max-1) || !p.consumeBudget(uint64(n)) {
 			return false
 		}
 		var ww bytes.Buffer
